@@ -20,7 +20,11 @@ import (
 	"github.com/kitex-contrib/xds/xdssuite"
 )
 
-func init() { props["C10"] = runC10 }
+func init() {
+	// the resolver is served by the manager: a lookup of an endpoint set that gives up while the response that supplies
+	// it is being handled must leave the name subscribed (later pushes are served); then the resolver cases proper
+	props["C10"] = func(c *ctx) { runSysWait(c, []string{"eds", "cds"}); runC10(c) }
+}
 
 type gEndpoint struct {
 	Host   string
